@@ -58,8 +58,7 @@ def judge(case, impl, model):
         if impl['ran'] >= 1 and not pfail and impl['twin'].get('remaining') == want:     # the body saw a consumed iterator
             pfail = f'checking consumed a one-shot iterator argument: items left {impl["remaining"]}, built with {want} (undecorated twin: untouched) - {C.describe_case(case)}'
     finding = None
-    if pfail and corr:
-        if 'untruthful' in model['regions'] or 'clazzFails' in model['regions']:
-            finding = 'bodyMentionsStaticmethod'
+    # (the former region bodyMentionsStaticmethod - a body / comment mentioning @staticmethod - was repaired by e6a11f4: no finding is
+    # attributed any more; a failure in an `untruthful` / `clazzFails` case is an ordinary violation)
     return {'corr': corr, 'pfail': pfail, 'finding': finding, 'nontrivial': bool(claimed),
             'tag': f"{case['x']['kind']}/{case['x']['flavour']}/{case['x']['needle']}/conf={int(s['allConforming'])}/{out}", 'why': why}
